@@ -83,9 +83,14 @@ def _case(job):
     from pvl.parser import OmniParser
     from pvl.lexer import lexer as real_lexer
     idx, data, whole_decodable, tmpdir = job
-    path = os.path.join(tmpdir, "f%d.lbl" % idx)
+    # every third file has a name that needs escaping in a file: URL
+    path = os.path.join(tmpdir, ("f%d a#b%%41 \u00e9.lbl" if idx % 3 == 0 else "f%d.lbl") % idx)
     with open(path, "wb") as f:
         f.write(data)
+    header = b"SFDU HEADER 0123456789\r\n"          # the label behind a header: streams are handed over at a non-zero offset
+    path2 = os.path.join(tmpdir, "h%d.img" % idx)
+    with open(path2, "wb") as f:
+        f.write(header + data)
     results, after = {}, {}
 
     def run(name, call):
@@ -112,6 +117,19 @@ def _case(job):
             return pvl.load(f, parser=p)
     run("load_text_stream", text_stream)
     run("load_binary_stream", binary_stream)
+
+    def binary_stream_at_offset(p):
+        with open(path2, "rb") as f:
+            f.seek(len(header))
+            return pvl.load(f, parser=p)
+
+    def text_stream_at_offset(p):
+        with open(path2, "r", encoding="utf-8", newline="") as f:
+            f.read(len(header))
+            return pvl.load(f, parser=p)
+    run("load_binary_stream@offset", binary_stream_at_offset)
+    if whole_decodable:
+        run("load_text_stream@offset", text_stream_at_offset)
     # the strict grammars too (END glued to a byte their character set does not have must still end the label)
     from .. import loaders as L
     run("PVL:load_str_path", lambda p: pvl.load(path, parser=L.make_parser("PVL", **({"lexer_fn": p.lexer} if p else {}))))
@@ -120,6 +138,7 @@ def _case(job):
         run("loads_str", lambda p: pvl.loads(data.decode("utf-8"), parser=p))
         run("loads_bytes", lambda p: pvl.loads(data, parser=p))
     os.unlink(path)
+    os.unlink(path2)
     return results, after
 
 
